@@ -146,8 +146,12 @@ class Tracker:
     def __init__(self):
         self.names, self.queues, self.live = {}, {}, set()
         self.eaves = set()      # connections that ever asked for an eavesdropping rule
+        self.stalled = set()    # connections that are not reading: what they are sent shows up when they read again
+        self.uncertain = set()  # names requested or released by a connection while it was not reading: the reply was not seen in time
 
     def primary(self, d):
+        if d in self.uncertain:
+            return "?"
         if d.startswith(":"):
             for c, n in self.names.items():
                 if n == d and c in self.live:
@@ -160,6 +164,10 @@ class Tracker:
         op = tr.ops[i]
         if op[0] == "connect":
             self.live.add(op[1])
+        elif op[0] == "stall":
+            self.stalled.add(op[1])
+        elif op[0] == "unstall":
+            self.stalled.discard(op[1])
 
     def after(self, i, tr):
         per, closed = tr.steps[i]
@@ -172,6 +180,10 @@ class Tracker:
         if sent and actor in self.live and actor not in gone and fld(sent, "t") == "1" and hexname(fld(sent, "dest")) == "org.freedesktop.DBus" \
                 and hexname(fld(sent, "iface")) in ("org.freedesktop.DBus", None):
             member = hexname(fld(sent, "member"))
+            if actor in self.stalled and member in ("RequestName", "ReleaseName"):
+                mm = re.match(r"^s:([0-9a-f]*|-)", fld(sent, "body") or "")
+                if mm:
+                    self.uncertain.add(bytes.fromhex(mm.group(1)).decode("latin1") if mm.group(1) != "-" else "")
             mine = per.get(actor, [])
             replies = [l for l in mine if fld(l, "rs") == fld(sent, "ser") and hexname(fld(l, "sender")) == "org.freedesktop.DBus" and fld(l, "t") == "2"]
             body = fld(sent, "body") or ""
